@@ -24,6 +24,7 @@ SCEN = {
     "join": [("a", [], None, False), ("b", [], None, False), ("c", [0, 1], None, False)],
     "late": [("a", [], None, False), ("b", [0], None, True), ("c", [], None, True)],
     "tl-chain": [("a", [], 5, False), ("b", [0], None, False), ("c", [], None, False)],
+    "late-join": [("a", [], None, False), ("c", [], None, False), ("b", [0, 1], None, True)],
     "one": [("a", [], None, False)],
     "one-tl": [("a", [], 5, False), ("b", [], None, False)],
 }
@@ -49,6 +50,9 @@ def n_enabled0(scen_name, cores):
 def split(shard):
     """One shard per value of the first event selector."""
     return [dict(shard, e0=k) for k in range(n_enabled0(shard["scen"], shard["cores"]))]
+
+
+LAST_SAW_CANCEL = [False]
 
 
 def pool_body(args):
@@ -107,6 +111,8 @@ def pool_body(args):
                                 msg = "[C12] task %s is ready but waits although %d of %d cores are free" % (pool.names.get(tid), pool.max_cores - held, pool.max_cores)
             return msg
 
+        saw_cancel = LAST_SAW_CANCEL
+        saw_cancel[0] = False
         for i, (name, deps, tl, is_late) in enumerate(scen):
             if is_late:
                 late.append(i)
@@ -143,6 +149,7 @@ def pool_body(args):
                 what.rc_given = rc
                 pool.exit(what, rc)
             elif kind == "cancel":
+                saw_cancel[0] = True
                 pool.cancel(what)
             elif kind == "timer":
                 before = [p for p in pool.live()]
